@@ -45,7 +45,8 @@ def snapshot(value: V, memo: Optional[dict] = None) -> V:
 
 
 def verify_contract(repo: str, con: Any, contracts_by_target: dict[str, Any], model_paths: list[str],
-                    timeout_ms: int, mode: str = "main", open_findings: Optional[list[str]] = None) -> dict[str, Any]:
+                    timeout_ms: int, mode: str = "main", open_findings: Optional[list[str]] = None,
+                    concrete_model: Optional[dict[str, Any]] = None) -> dict[str, Any]:
     """mode 'main': assume NOT any open known-finding class; mode 'known:<id>': assume that class."""
     started = time.time()
     result: dict[str, Any] = {
@@ -68,6 +69,7 @@ def verify_contract(repo: str, con: Any, contracts_by_target: dict[str, Any], mo
         interp = Interp(world, ctx, contracts_by_target, stubs=con.__dict__.get("stubs"),
                         unroll=con.__dict__.get("unroll", 6))
         interp.open_findings = open_findings
+        interp.concrete_model = concrete_model
         for relname in con.__dict__.get("modules", []):
             world.load(relname)
         for cls_name, relname in (con.__dict__.get("class_pref") or {}).items():
@@ -113,7 +115,7 @@ def verify_contract(repo: str, con: Any, contracts_by_target: dict[str, Any], mo
                 ctx.assume(pre if not isinstance(pre, bool) else z3.BoolVal(pre))
             clause_guard: dict[str, list] = {}
             only_clauses = None
-            for fid in open_ids:
+            for fid in ([] if concrete_model is not None else open_ids):
                 entry = known[fid]
                 klass_fn, labels = entry if isinstance(entry, tuple) else (entry, None)
                 klass = interp.truth(interp.eval_named(klass_fn, args))
